@@ -228,7 +228,7 @@ package syncer
 //@ func RedisOutput.sendCmdsBatch$sendFuncOnce
 //@   arith int
 //@   properties C07 C09 C02 C01 C17
-//@   replay syncer_offsetWithoutRunId syncer_gcRunningReplay syncer_txnRecordWithoutRunId syncer_clusterCheckpointOrder syncer_inMemoryResumeDb syncer_inMemoryTxnPosition
+//@   replay syncer_offsetWithoutRunId syncer_gcRunningReplay syncer_txnRecordWithoutRunId syncer_clusterCheckpointOrder syncer_inMemoryResumeDb syncer_inMemoryTxnPosition syncer_clusterBracketedBatch
 //@   ghost var bLen mathint
 //@   ghost var bFirst string
 //@   ghost var bLast string
@@ -248,8 +248,8 @@ package syncer
 //@   set ridKeyVal = result after call RunIdKey
 //@   assert at call Put: a_stored_position_always_carries_its_run_id [C07 C17 C02 C09]: cpArmed == 1 ==> len(args) == 7 && args[1] == dyn(ridKeyVal) && args[2] == dyn(runId)
 //@   assert at call Put: a_flush_puts_exactly_the_queue_in_order [C01]: (bLen - ite(shouldInTransaction, 1, 0) >= 0 && bLen - ite(shouldInTransaction, 1, 0) < len(cmdQueue) && !(shouldInTransaction && bLen == 0) ==> arg0 == cmdQueue[bLen - ite(shouldInTransaction, 1, 0)].Cmd && arg1 == cmdQueue[bLen - ite(shouldInTransaction, 1, 0)].Args) && (shouldInTransaction && bLen == 0 ==> arg0 == "multi") && (bLen - ite(shouldInTransaction, 1, 0) >= len(cmdQueue) ==> arg0 == "hset" || arg0 == "exec")
-//@   assert at call Exec: a_cluster_position_is_not_sent_in_parallel_with_the_commands_it_covers [C02]: ro.cfg.Redis.Type == config.RedisTypeCluster && !shouldInTransaction && bCpPuts == 1 ==> bLen == 1
-//@   assert at call Dispatch: a_cluster_position_is_not_sent_in_parallel_with_the_commands_it_covers [C02]: ro.cfg.Redis.Type == config.RedisTypeCluster && !shouldInTransaction && bCpPuts == 1 ==> bLen == 1
+//@   assert at call Exec: a_cluster_position_is_not_sent_in_parallel_with_the_commands_it_covers [C02]: ro.cfg.Redis.Type == config.RedisTypeCluster && bCpPuts == 1 ==> bLen == 1 + ite(shouldInTransaction, 2, 0)
+//@   assert at call Dispatch: a_cluster_position_is_not_sent_in_parallel_with_the_commands_it_covers [C02]: ro.cfg.Redis.Type == config.RedisTypeCluster && bCpPuts == 1 ==> bLen == 1 + ite(shouldInTransaction, 2, 0)
 //@   assert at call keepPositionInMemory: a_position_kept_in_memory_names_the_database_of_the_last_command_taken [C01]: db == lastDb && offset == lastOffset
 //   memKept  the position handed to keepPositionInMemory in this flush
 //@   ghost var memKept mathint
